@@ -32,9 +32,9 @@ def lim_instances(ctx):
 
 def srv_instances(ctx):
     """(MaxAddrs, MaxLen, RPM, DDRPM, MaxParts)"""
-    out = [(2, 3, 3, 1, 2)]
+    out = [(2, 3, 3, 1, 1)]
     if ctx.tier == "thorough":
-        out.append((3, 4, 2, 2, 1))
+        out = [(2, 3, 3, 1, 2), (3, 4, 2, 2, 1)]
     for _a, _l, rpm, ddrpm, _p in out:
         # the server model lets time pass only by whole minutes; a walk accumulates at most one stream timeout
         # (15 s + 1) per dial-data grant and one dial wait (<= 3 s) per grant of virtual time between two Minute steps
